@@ -4,7 +4,7 @@ Copies a confirmed seeded change from /tmp/seed/out/Cxx/<letter> into /verif/see
 import json, os, shutil, sys, glob
 prop, letter, slug, status, needs = sys.argv[1:6]
 strengthened = sys.argv[6] if len(sys.argv) > 6 else ''
-src = f'/tmp/seed/out/{prop}/{letter}'
+src = f"/tmp/seed/{os.environ.get('SEED_OUT', 'out')}/{prop}/{letter}"
 dst = f'/verif/seeded/{prop}-{slug}'
 os.makedirs(dst, exist_ok=True)
 for f in glob.glob(src + '/*'):
